@@ -109,3 +109,27 @@ pub fn linear_srgb_to_oklab<T: Num>(r: T, g: T, b: T) -> (T, T, T) {
     let (l, m, s) = mat_vec(&OK_SRGB_M1, (r, g, b));
     mat_vec(&OK_M2, (l.cbrt(), m.cbrt(), s.cbrt()))
 }
+
+// ---- further transfer functions (published constants) ----
+/// ITU-R BT.709 / BT.2020 OETF: V = 4.5 L for L < beta, alpha L^0.45 - (alpha - 1) otherwise
+pub const REC_ALPHA: f64 = 1.09929682680944;
+pub const REC_BETA: f64 = 0.018053968510807;
+pub fn rec_encode<T: Num>(l: T) -> T {
+    T::ite(&T::p_lt(&l, &T::k(REC_BETA)), T::k(4.5) * l, T::k(REC_ALPHA) * palette::num::Powf::powf(l, T::k(0.45)) - T::k(REC_ALPHA - 1.0))
+}
+pub fn rec_decode<T: Num>(v: T) -> T {
+    T::ite(&T::p_lt(&v, &T::k(4.5 * REC_BETA)), v / T::k(4.5), palette::num::Powf::powf(v * T::k(1.0 / REC_ALPHA) + T::k(1.0 - 1.0 / REC_ALPHA), T::k(1.0 / 0.45)))   // (v + alpha - 1) / alpha, written with the reciprocal so that the rounded constants coincide
+}
+/// Adobe RGB (1998): pure power 563/256
+pub fn adobe_encode<T: Num>(l: T) -> T { palette::num::Powf::powf(l, T::k(256.0 / 563.0)) }
+pub fn adobe_decode<T: Num>(v: T) -> T { palette::num::Powf::powf(v, T::k(563.0 / 256.0)) }
+/// DCI-P3: pure power 2.6
+pub fn p3_gamma_encode<T: Num>(l: T) -> T { palette::num::Powf::powf(l, T::k(1.0 / 2.6)) }
+pub fn p3_gamma_decode<T: Num>(v: T) -> T { palette::num::Powf::powf(v, T::k(2.6)) }
+/// ROMM / ProPhoto RGB: 16 L below Et = 1/512, L^(1/1.8) above
+pub fn prophoto_encode<T: Num>(l: T) -> T {
+    T::ite(&T::p_lt(&l, &T::k(1.0 / 512.0)), T::k(16.0) * l, palette::num::Powf::powf(l, T::k(1.0 / 1.8)))
+}
+pub fn prophoto_decode<T: Num>(v: T) -> T {
+    T::ite(&T::p_lt(&v, &T::k(16.0 / 512.0)), v / T::k(16.0), palette::num::Powf::powf(v, T::k(1.8)))
+}
